@@ -100,7 +100,7 @@ Definition justified (maxdiff : Z) (f1 f2 : list row) (p : row * row) (j : row) 
   let a := fst p in let b := snd p in
   In a f1 /\ In b f2 /\ rest a = false /\ rest b = true /\
   qid a = qid b /\ rid a = rid b /\ rrev a = rrev b /\ Z.abs (Z.max (rs a) (rs b) - Z.min (re a) (re b)) <= maxdiff /\
-  join_rows a b = Ok j /\
+  join_rows a b = Ok j /\ joined_ok j = true /\
   qid j = qid a /\ rid j = rid a /\ rrev j = rrev a /\ rest j = false /\
   (forall x, In x (row_pairs (rsegs j)) -> In x (row_pairs (rsegs a)) \/ In x (row_pairs (rsegs b))).
 
@@ -128,7 +128,7 @@ Proof.
   destruct (results_resolve_partition f1 f2 maxdiff joined sep N1 N2 Er) as (parts & HF2 & HF & HP).
   assert (HJ : Forall2 (justified maxdiff f1 f2) parts joined).
   { eapply F2_weaken; [|exact (Forall2_with_left _ _ _ _ HF2 HF)]. cbv beta. intros p j X.
-    destruct X as ((Ia & Ib & Eq & Erid) & Ho & Ej). destruct (check_overlap_spec _ _ _ Ho) as (Ev & _ & Hgap).
+    destruct X as ((Ia & Ib & Eq & Erid) & Ho & Ej & Ek). destruct (check_overlap_spec _ _ _ Ho) as (Ev & _ & Hgap).
     destruct (join_rows_header _ _ _ Ej) as (J1 & J2 & _ & _ & J5 & J6). rewrite Forall_forall in R1, R2.
     unfold justified. cbn zeta. repeat split; try assumption; [apply R1; exact Ia | apply R2; exact Ib | apply (join_rows_subset _ _ _ Ej)]. }
   assert (NJ : NoDup (map qid joined)).
@@ -150,24 +150,55 @@ Proof. intros H. destruct (all_mode_run P seeds refs qs maxdiff o H) as (f1 & f2
 
 (* a joined row of AlignmentResults.resolve on ANY row list comes from the first two members of a group that pass the guard *)
 Lemma resolve_groups_joined maxdiff gs : forall joined sep, resolve_groups maxdiff gs = Ok (joined, sep) ->
-  forall j, In j joined -> exists x y t, In (x :: y :: t) gs /\ check_overlap x y maxdiff = true /\ join_rows x y = Ok j.
+  forall j, In j joined -> exists x y t, In (x :: y :: t) gs /\ check_overlap x y maxdiff = true /\ join_rows x y = Ok j /\ joined_ok j = true.
 Proof. induction gs as [|g gs IH]; intros joined sep H j Hj; cbn [resolve_groups] in H.
   - injection H as <- <-. destruct Hj.
   - destruct (resolve_groups maxdiff gs) as [[jt st]|] eqn:Et; [|discriminate]. cbn [bind] in H.
-    assert (Hrec : In j jt -> exists x y t, In (x :: y :: t) (g :: gs) /\ check_overlap x y maxdiff = true /\ join_rows x y = Ok j).
-    { intros Hin. destruct (IH jt st eq_refl j Hin) as (x & y & t & Hg & Ho & Ej). exists x, y, t. split; [right; exact Hg | split; assumption]. }
+    assert (Hrec : In j jt -> exists x y t, In (x :: y :: t) (g :: gs) /\ check_overlap x y maxdiff = true /\ join_rows x y = Ok j /\ joined_ok j = true).
+    { intros Hin. destruct (IH jt st eq_refl j Hin) as (x & y & t & Hg & Ho & Ej & Ek). exists x, y, t. split; [right; exact Hg | repeat split; assumption]. }
     destruct g as [|x [|y t]]; cbn [fst snd] in H.
     + injection H as <- <-. apply Hrec. exact Hj.
     + injection H as <- <-. apply Hrec. exact Hj.
     + destruct (check_overlap x y maxdiff) eqn:Eo.
-      * destruct (join_rows x y) as [j'|] eqn:Ej; [|discriminate]. cbn [bind fst snd] in H. injection H as <- <-.
-        destruct Hj as [<-|Hj]; [|apply Hrec; exact Hj]. exists x, y, t. split; [left; reflexivity | split; assumption].
+      * destruct (join_rows x y) as [j'|] eqn:Ej; [|discriminate]. cbn [bind fst snd] in H.
+        destruct (joined_ok j') eqn:Ek; injection H as <- <-; [|apply Hrec; exact Hj].
+        destruct Hj as [<-|Hj]; [|apply Hrec; exact Hj]. exists x, y, t. split; [left; reflexivity | repeat split; assumption].
       * cbn [fst snd] in H. injection H as <- <-. apply Hrec. exact Hj. Qed.
+
+(* the groups that are NOT joined keep all their members in `separate`: single-member groups, groups whose first two members fail the
+   guard, and (repair F9) groups whose first two members pass the guard but whose join has no pair *)
+Definition not_joined (maxdiff : Z) (g : list row) : Prop :=
+  match g with
+  | x :: y :: _ => check_overlap x y maxdiff = false \/ exists j, join_rows x y = Ok j /\ joined_ok j = false
+  | _ => True
+  end.
+Lemma resolve_groups_separate maxdiff gs : forall joined sep, resolve_groups maxdiff gs = Ok (joined, sep) ->
+  forall g, In g gs -> not_joined maxdiff g -> incl g sep.
+Proof. induction gs as [|g0 gs IH]; intros joined sep H g Hg Hn; [destruct Hg|]. cbn [resolve_groups] in H.
+  destruct (resolve_groups maxdiff gs) as [[jt st]|] eqn:Et; [|discriminate]. cbn [bind] in H.
+  assert (Hrec : In g gs -> incl g st) by (intros Hin; apply (IH jt st eq_refl g Hin Hn)).
+  assert (Hmono : incl st sep).
+  { destruct g0 as [|x [|y t]]; cbn [fst snd] in H.
+    - injection H as <- <-. apply incl_refl.
+    - injection H as <- <-. apply incl_tl, incl_refl.
+    - destruct (check_overlap x y maxdiff); [destruct (join_rows x y) as [j'|]; [|discriminate]; cbn [bind fst snd] in H; destruct (joined_ok j')|];
+        injection H as <- <-; try apply incl_refl; change (x :: y :: t ++ st) with ((x :: y :: t) ++ st); apply (incl_appr (x :: y :: t)), incl_refl. }
+  destruct Hg as [->|Hg]; [|intros w Hw; apply Hmono, (Hrec Hg w Hw)].
+  destruct g as [|x [|y t]]; cbn [fst snd] in H.
+  - intros w [].
+  - injection H as <- <-. intros w [<-|[]]. left. reflexivity.
+  - cbn [not_joined] in Hn. destruct (check_overlap x y maxdiff) eqn:Eo.
+    + destruct Hn as [Hn|(j & Ej & Ek)]; [discriminate|]. rewrite Ej in H. cbn [bind fst snd] in H. rewrite Ek in H.
+      injection H as <- <-. change (x :: y :: t ++ st) with ((x :: y :: t) ++ st). apply (incl_appl st), incl_refl.
+    + injection H as <- <-. change (x :: y :: t ++ st) with ((x :: y :: t) ++ st). apply (incl_appl st), incl_refl. Qed.
+Theorem unjoined_group_separate rows maxdiff joined sep g : results_resolve rows maxdiff = Ok (joined, sep) ->
+  In g (groups_of rows) -> not_joined maxdiff g -> incl g sep.
+Proof. rewrite results_resolve_unfold. intros H. apply (resolve_groups_separate _ _ _ _ H). Qed.
 
 Theorem join_guard rows maxdiff joined sep j : results_resolve rows maxdiff = Ok (joined, sep) -> In j joined ->
   exists a b, In a rows /\ In b rows /\ qid a = qid b /\ rid a = rid b /\ rrev a = rrev b /\
-    Z.abs (Z.max (rs a) (rs b) - Z.min (re a) (re b)) <= maxdiff /\ join_rows a b = Ok j.
-Proof. rewrite results_resolve_unfold. intros H Hj. destruct (resolve_groups_joined _ _ _ _ H j Hj) as (x & y & t & Hg & Ho & Ej).
+    Z.abs (Z.max (rs a) (rs b) - Z.min (re a) (re b)) <= maxdiff /\ join_rows a b = Ok j /\ joined_ok j = true.
+Proof. rewrite results_resolve_unfold. intros H Hj. destruct (resolve_groups_joined _ _ _ _ H j Hj) as (x & y & t & Hg & Ho & Ej & Ek).
   destruct (groups_are_filters rows _ Hg) as (_ & r & c & E).
   assert (Hin : forall w, In w (x :: y :: t) -> In w rows /\ qid w = c /\ rid w = r).
   { intros w Hw. rewrite E in Hw. apply filter_In in Hw. destruct Hw as (Hw & Ec). apply filter_In in Hw. destruct Hw as (Hw & Er).
